@@ -42,7 +42,7 @@ fn print_string(mem: &mut Memory, string: String) -> GcRef {
     for c in string.chars().rev() {
         let character = mem.allocate_character(c);
         result = mem.allocate_cons(character, result);
-        if c == '"' {
+        if c == '"' || c == '\\' {
             result = mem.allocate_cons(backslash.clone(), result);
         }
     }
